@@ -17,7 +17,6 @@
   correspondence run under ASan with the format string in an exact-size heap block.
 -/
 import StVerif.Lemmas.FmtRender
-import StVerif.Lemmas.KernelFormatString
 
 namespace StVerif.Props.C10
 open StVerif StVerif.Fmt StVerif.Lemmas.Fmt StVerif.Generated
@@ -221,14 +220,5 @@ example : (Arg.wide .utf16 .checkValidity [0xE9, 0xD800]).WideOk := by
 /-- a 100-byte floating-point rendering is output in full (it used to abort, defect 13) -/
 example : run (some [123, 125]) [.float (fun _ _ _ => List.replicate 100 49)] = .ok [.append (List.replicate 100 49)] := by
   decide +kernel
-
-/-- `ST::format_string` as translated from include/st_formatter.h on every run (the padding / truncation of every text-like
-    argument; `static_cast<int>(size)` and the unsigned `minimum_length - size` as the explicit wrap-arounds they are) is the
-    model's `formatString` for EVERY text length below 2^64 - also 2^31 and more, where the narrowing wraps - and every width
-    and precision: the only thing read is `text.take` of the effective size, never anything outside the text -/
-theorem translated_format_string_is_model (f : FormatSpec) (text : List Nat) (hpad : f.pad < 256) (hlen : text.length < 2 ^ 64) :
-    StVerif.Generated.Kernels.format_string text (KernelBridge.alignCode f.alignment) f.minimumLength (StVerif.Cxx.toChar f.pad)
-      f.precision 0 text.length 1 = .ok ((StVerif.Fmt.formatString f text).map KernelBridge.ofEvent) :=
-  KernelBridge.format_string_eq_gen f text hpad hlen
 
 end StVerif.Props.C10
